@@ -3,6 +3,7 @@ use crate::engine::{Case, Ctx, Verdict};
 use crate::refm::eval::RefOutcome;
 use crate::subject::{MachineryError, Outcome};
 
+pub mod evalorder;
 pub mod c01;
 pub mod c02;
 pub mod c03;
